@@ -5,6 +5,7 @@
 #include <nstd/Map.hpp>
 #include <nstd/MultiMap.hpp>
 #include "vf.h"
+#include "freelist.h"
 
 #ifndef VF_K
 #define VF_K 3
@@ -89,6 +90,7 @@ static void checkInvariant(M& m)
   if(g_prev) vf_assert(g_prev->next == &m.endItem, "inv: last->next is end");
   else vf_assert(m._begin.item == &m.endItem, "inv: empty begin==end");
   vf_assert((m.root == 0) == (m._size == 0), "inv: root null iff empty");
+  vf_checkFreeList(m);
 }
 
 static void checkAgainstModel(M& m, const Model& md, bool addresses)
@@ -378,7 +380,7 @@ extern "C" int step()
   makePreState(m, md);
   checkInvariant(m);          // the constructed pre-state satisfies the invariant (sanity of the builder)
   checkAgainstModel(m, md, true);
-  unsigned op = vf_pick(md.n ? 5 : 2);
+  unsigned op = vf_pick(md.n ? 6 : 2);
   switch(op)
   {
   case 0: opInsert(m, md, false); break;
@@ -386,6 +388,7 @@ extern "C" int step()
   case 2: opRemoveIt(m, md, vf_pick(md.n)); break;
   case 3: opRemoveKey(m, md); break;
   case 4: probe(m, md); break;
+  case 5: m.clear(); md.n = 0; break;      // every slot goes back to the free list
   }
   checkInvariant(m);
   checkAgainstModel(m, md, true);
